@@ -2,6 +2,7 @@
 NodeSplitIterator::next and the mode -> unit-list selection.  -> coq/Generated/SplitFacts.v"""
 import re
 import facts as F
+import rewrites as R
 
 OPS = {">": "CGt", ">=": "CGe", "<": "CLt", "<=": "CLe", "==": "CEq", "!=": "CNe"}
 
@@ -140,7 +141,8 @@ def gen():
     # --- mlist.rs :: split_into
     rel = "sudachi/src/analysis/mlist.rs"
     t = F.strip_comments(F.src(rel))
-    b = F.fn_body(t, "split_into", rel)
+    # a guard clause `if c { return Ok(false); } ...; Ok(true)` is read as `if c { Ok(false) } else { ...; Ok(true) }`
+    b = R.guard_to_else(F.fn_body(t, "split_into", rel))
     need(r"let\s+num_splits\s*=\s*node\.num_splits\(mode\)\s*;", b, "split_into: `let num_splits = node.num_splits(mode)` not found")
     out.append("(* split_into: `if num_splits == 0 { Ok(false) } else { ...; Ok(true) }` *)\n")
     out.append("Definition nothing_cmp : cmp * N := %s.\n" % guard(b, "num_splits", "split_into"))
